@@ -1502,7 +1502,7 @@ def run(ctx):
     mult_stub = 2 if (changed_stub and ctx.quick) else 1
     scale = float(os.environ.get('C09_SCALE', '1'))      # debugging aid: 0 = witnesses only
     n_mono, n_adv = int(ctx.n(10, 60) * mult * scale), int(ctx.n(16, 100) * mult * scale)
-    n_stub = int(ctx.n(6, 40) * mult_stub * scale)
+    n_stub = int(ctx.n(5, 40) * mult_stub * scale)
     lo, hi = ctx.n(4, 6), ctx.n(8, 12)
     ctx.cov['rule'] = (
         'witness: 5 fixed histories (the refutation witnesses of Props/C09.v + a monotone control); '
